@@ -49,6 +49,9 @@ RULES = {
     "C09-B1": "back-tracking walks the predecessor table written by the relaxation from the target until `start`, records every node once "
               "including both ends (the sentinel excluded) and reverses the list",
     "C09-R1": "a variable passed positionally to a function of paths.py lands in the parameter of the same name when the callee has one",
+    "C09-R2": "a path function that delegates to another path function forwards every option it shares with the delegate (a parameter of the "
+              "caller that the callee also has, with a default, is passed explicitly, positionally or by keyword): the callee's default never "
+              "silently replaces the caller's choice (weights, export_path_mesh)",
 }
 
 ASSUMPTIONS = [
@@ -65,7 +68,6 @@ def run(ctx):
     for modname, qual in DIJKSTRA_SITES:
         fn = ctx.repo.func(modname, qual)
         n += dijkstra(ctx, modname, fn, item)
-    ctx.require_count("C09-D Dijkstra loops", n, 4)
     # no other Dijkstra loop may hide in the two modules
     for modname in (PATHS, CUT):
         m = ctx.repo.module(modname)
@@ -90,7 +92,9 @@ def a1_arity(ctx):
         k, nm = sk.arity_agreement(ctx, "C09-A1", PATHS, fn)
         n += k
         names += nm
-    ctx.require_count("C09-A1 callable bindings", n, 3)
+    if n < 1:
+        ctx.fail("C09-A1", ctx.site(PATHS, ctx.repo.func(PATHS, "shortest_path")), "edge weight callables of shortest_path not found",
+                 "the weight mode must select a callable (lambda / local def) applied to the two endpoints of the relaxed edge")
 
 
 # ----------------------------------------------------------------------- C09-E1
@@ -239,7 +243,6 @@ def e1_sentinel(ctx):
     fl.run(fn.body, universe)
     # uses of the sentinel inside nested lambdas/defs are not expected; count them as unsupported if present
     n_uses = len(goods) + len(escapes)
-    ctx.require_count("C09-E1 sentinel uses", n_uses, 5)
     for n in goods.values():
         ctx.ok("C09-E1", ctx.site(PATHS, fn, n), f"{S} used as key of a local dictionary / in a comparison")
     if escapes:
@@ -675,7 +678,6 @@ def f1_build_path(ctx):
     ctx.check(not other, "C09-F1", site,
               "edges of build_path do not join consecutive vertices of the path block",
               "; ".join(sorted({t for _, t in other})), note=f"{n_regions} length regions: edges join block positions (j-1, j), j = 1..len-1")
-    ctx.require_count("C09-F1 regions", n_regions, 3)
 
 
 def before(a, b):
@@ -818,8 +820,96 @@ def q1_priority_queue(ctx):
             ctx.check(good, "C09-Q1", ctx.site(PQ, st, n),
                       f"{st.name} uses self.data outside heappush / heappop / len / [0] (`{au.src(au.enclosing_stmt(n))[:60]}`)",
                       "the list is a heap only as long as nothing but heapq writes it", note="self.data touched through heapq only")
-    ctx.require_count("C09-Q1 uses of self.data", n_uses, 5)
+    if n_uses < 1:
+        ctx.fail("C09-Q1", ctx.site(PQ, cls), "heap list self.data of PriorityQueue not found", "the queue no longer stores its items in self.data")
+    _q1_every_push_inserts(ctx, pu, fields)
+    _q1_no_side_index(ctx, cls, fields)
+    _q1_priorities_immutable(ctx, fields)
     return info
+
+
+def _q1_every_push_inserts(ctx, pu, fields):
+    """must-dataflow: every normal exit of push has gone through heappush(self.data, PriorityItem(...))"""
+    def t_stmt(state, st):
+        for c in au.calls(st):
+            if au.call_tail(c) == "heappush" and len(c.args) == 2 and au.is_self_attr(c.args[0], "data"):
+                state = state | {"pushed"}
+        return state
+    fl = flow.Flow(t_stmt)
+    fl.run(pu.body, frozenset())
+    bad = [(k, n) for k, n, st in fl.exits if k in ("return", "fall") and "pushed" not in st]
+    conds = []
+    for k, n in bad:
+        if n is not None:
+            conds += [("" if p_ else "not ") + au.src(e) for e, p_ in sk.atoms(sk.path_conds(n))]
+    ctx.check(not bad, "C09-Q1", ctx.site(PQ, pu),
+              "PriorityQueue.push returns on some path without heappush(self.data, item)",
+              "every push must insert an entry: the lazy-deletion Dijkstra loops re-push a vertex to lower its key, a push that is skipped "
+              "(or replaced by an in-place update of a queued item) leaves the heap without an entry at the new label"
+              + (f" (exit under: {', '.join(conds)})" if conds else ""),
+              note="heappush on every normal exit of push")
+
+
+def _q1_no_side_index(ctx, cls, fields):
+    """no field other than self.data holds queued items (an index of queued items lets code reach and change them behind the heap)"""
+    n = 0
+    for fn in [st for st in cls.body if isinstance(st, ast.FunctionDef)]:
+        b = sym.Bindings(fn)
+
+        def is_item(e, at):
+            r = b.resolve(e, at=at, keep=("self",)) if isinstance(e, ast.Name) else e
+            if isinstance(r, ast.Call) and au.call_tail(r) in ("PriorityItem", "heappop", "get", "pop"):
+                return True
+            if isinstance(r, ast.Subscript) and au.is_self_attr(r.value, "data"):
+                return True
+            if isinstance(e, ast.Name):
+                # ambiguous reaching definition: any binding of the name to an item counts
+                for st in au.stmts(fn.body):
+                    for nm, v in sym.split_assign(st):
+                        if nm == e.id and isinstance(v, ast.Call) and au.call_tail(v) in ("PriorityItem", "heappop"):
+                            return True
+            return False
+        for st in au.stmts(fn.body):
+            stores = []
+            if isinstance(st, (ast.Assign, ast.AnnAssign)) and st.value is not None:
+                for t in au.assign_targets(st):
+                    base = t.value if isinstance(t, ast.Subscript) else t
+                    if au.is_self_attr(base) and base.attr != "data":
+                        stores.append((base.attr, st.value))
+            for c in au.calls(st):
+                if isinstance(c.func, ast.Attribute) and au.is_self_attr(c.func.value) and c.func.value.attr != "data" \
+                        and c.func.attr in ("append", "add", "insert", "setdefault", "update", "appendleft"):
+                    for a in c.args:
+                        stores.append((c.func.value.attr, a))
+            for f, v in stores:
+                n += 1
+                ctx.check(not is_item(v, st), "C09-Q1", ctx.site(PQ, fn, st),
+                          f"PriorityQueue keeps queued items in self.{f} besides the heap",
+                          "an index of the queued items makes them reachable without heappop: their priority can be changed (or they can be "
+                          "dropped) while the heap order is not restored, so get() no longer returns the minimum", note="no side index of items")
+    if n == 0:
+        ctx.ok("C09-Q1", ctx.site(PQ, cls), "self.data is the only field of PriorityQueue")
+
+
+def _q1_priorities_immutable(ctx, fields):
+    """the fields of a PriorityItem are never stored to after construction (queue module and the Dijkstra modules)"""
+    n = 0
+    for modname in (PQ, PATHS, CUT):
+        m = ctx.repo.module(modname)
+        for q, fn in m.funcs.items():
+            for st in au.stmts(fn.body):
+                if not isinstance(st, (ast.Assign, ast.AugAssign, ast.AnnAssign)):
+                    continue
+                for t in au.assign_targets(st):
+                    for x in ast.walk(t):
+                        if isinstance(x, ast.Attribute) and isinstance(x.ctx, ast.Store) and x.attr == "priority" \
+                                and not (au.is_self_attr(x) and q.startswith("PriorityItem.")):
+                            n += 1
+                            ctx.fail("C09-Q1", ctx.site(modname, fn, st), "priority of an existing PriorityItem is modified in place",
+                                     f"`{au.src(st)}`: heapq orders the list at push time only; lowering the priority of an item that is already "
+                                     "in the heap breaks the heap invariant and get() returns a non-minimal item (Dijkstra settles vertices too early)")
+    if n == 0:
+        ctx.ok("C09-Q1", ctx.site(PQ, ctx.repo.cls(PQ, "PriorityItem")), "no store to .priority outside PriorityItem")
 
 
 # ----------------------------------------------------------------------- C09-D1..D4
@@ -1121,7 +1211,8 @@ def w1_weight_modes(ctx):
                 idxs = sorted(x.slice.id if isinstance(x.slice, ast.Name) else "?" for x in vs)
                 ctx.check(idxs == sorted(ps), "C09-W1", s, "length weight does not measure the distance between the two endpoints",
                           f"coordinates read at {idxs}", note="length = distance(P[u], P[v])")
-    ctx.require_count("C09-W1 weight callables of shortest_path", n, 3)
+    if n < 1:
+        ctx.fail("C09-W1", ctx.site(PATHS, fn), "weight callables of shortest_path not found", "no lambda bound to a local name selects the edge weight")
     # (b) shortest_path_to_vertex_set: adjacency filled symmetrically from the edge list, custom weights by enumeration index
     fn = repo.func(PATHS, "shortest_path_to_vertex_set")
     site = ctx.site(PATHS, fn)
@@ -1175,7 +1266,9 @@ def w1_weight_modes(ctx):
             idxs = sorted(x.slice.id if isinstance(x.slice, ast.Name) else "?" for x in vs)
             ctx.check(idxs == sorted([u, w]), "C09-W1", s, "length weight does not measure the distance between the two endpoints",
                       f"coordinates read at {idxs}", note="length = distance(P[u], P[v])")
-    ctx.require_count("C09-W1 adjacency fill loops", n_loops, 3)
+    if n_loops < 1:
+        ctx.fail("C09-W1", site, "weighted adjacency of the vertex-set query is not filled from the edge list",
+                 "no `for (u, v) in mesh.edges: adj[u][v] = w; adj[v][u] = w` loop found")
     # (c) the sink is linked from every target
     S = None
     for name, v in b.defs.items():
@@ -1284,7 +1377,6 @@ def b1_backtracking(ctx):
         ctx.check(len(rev) == 1, "C09-B1", s, "back-tracked list is not reversed exactly once after the loop",
                   "nodes are collected from the target towards the start; the returned path must begin at `start`",
                   note="list reversed once")
-    ctx.require_count("C09-B1 back-tracking loops", n, 2)
 
 
 # ----------------------------------------------------------------------- C09-R1
@@ -1315,4 +1407,33 @@ def r1_forwarding(ctx):
                       f"call of {c.func.id} passes too many arguments",
                       f"`{au.src(c)}`: {c.func.id}{tuple(ps)} has a parameter of that name in another slot",
                       note=f"{c.func.id}: same-named variables land in their parameters")
-    ctx.require_count("C09-R1 forwarding calls", n, 5)
+    if n < 1:
+        ctx.fail("C09-R1", ctx.site(PATHS, repo.func(PATHS, "shortest_path_to_border")), "delegating calls between the path functions not found",
+                 "shortest_path_to_border -> shortest_path_to_vertex_set -> shortest_path / build_path")
+    # ---- C09-R2: shared options are forwarded
+    n2 = 0
+    for q, fn in sorted(top.items()):
+        mine = set(au.params(fn))
+        for c in au.calls(fn, into_funcs=True):
+            if not (isinstance(c.func, ast.Name) and c.func.id in top) or any(isinstance(a, ast.Starred) for a in c.args) \
+                    or any(kw.arg is None for kw in c.keywords):
+                continue
+            callee = top[c.func.id]
+            pos = callee.args.posonlyargs + callee.args.args
+            ndef = len(callee.args.defaults)
+            defaulted = [a.arg for a in pos[len(pos) - ndef:]] if ndef else []
+            defaulted += [a.arg for a, d in zip(callee.args.kwonlyargs, callee.args.kw_defaults) if d is not None]
+            shared = [p_ for p_ in defaulted if p_ in mine]
+            if not shared:
+                continue
+            amap = sk.resolve_positional(c, callee) or {}
+            missing = [p_ for p_ in shared if p_ not in amap]
+            n2 += 1
+            ctx.check(not missing, "C09-R2", ctx.site(PATHS, fn, c),
+                      f"{q} calls {c.func.id} without forwarding its own option(s) {', '.join('`' + m_ + '`' for m_ in missing)}",
+                      f"`{au.src(c)}`: {c.func.id} then runs with its default for {', '.join(missing)} whatever the caller of {q} asked for "
+                      "(e.g. weights='one' or a custom weight table is ignored on this branch and the returned path is shortest for the wrong weights)",
+                      note=f"{q} -> {c.func.id}: shared options forwarded")
+    if n2 < 1:
+        ctx.fail("C09-R2", ctx.site(PATHS, repo.func(PATHS, "shortest_path_to_border")), "delegating calls with shared options not found",
+                 "shortest_path_to_border / shortest_path_to_vertex_set must delegate with weights and export_path_mesh")
